@@ -281,6 +281,17 @@ def tokGo (cls : Classes) : Ctx → List Token → List SemToken
 /-- `tokenizeForSemantics`, given the lexer's output for the content. -/
 def tokenize (cls : Classes) (toks : List Token) : List SemToken := tokGo cls {} toks
 
+/-- `tokGo` together with, for every emitted token, the lexer token it was made from
+    (provenance only; `(tokGoSrc …).map (·.1) = tokGo …`, lemma `tokGoSrc_fst`). -/
+def tokGoSrc (cls : Classes) : Ctx → List Token → List (SemToken × Token)
+  | _, [] => []
+  | c, t :: ts =>
+    if t.ty == .eof then [] else
+    let r := stepTok cls c t
+    r.2.map (·, t) ++ tokGoSrc cls r.1 ts
+
+def tokenizeSrc (cls : Classes) (toks : List Token) : List (SemToken × Token) := tokGoSrc cls {} toks
+
 /-! ### Encoding -/
 
 abbrev Data := List UInt32
